@@ -465,14 +465,19 @@ def stream_decoder(rep, ctx, findings):
                          dict(kind='input', driver='wire.san', case=sc[:200000], observed=se[-2500:], stream='decoder'))
             start = start + idx + 1
     if ctx.model and impl is not None:
-        rc, mod, err = run_std(ctx.model, cases, ctx.work, 'dec-model', timeout=900)
-        d = vlib.first_diff(cases, impl, mod)
-        rep.cov['decoder_model_agreement'] = len(cases) if d is None else d
+        # the extracted model reads lists by index (quadratic in the offset): datagrams above 20000
+        # bytes are run on the implementation and under the sanitizers only
+        sel = [i for i, c in enumerate(cases) if len(c) < 40100]
+        mcases = [cases[i] for i in sel]
+        mimpl = [impl[i] for i in sel]
+        rc, mod, err = run_std(ctx.model, mcases, ctx.work, 'dec-model', timeout=900)
+        d = vlib.first_diff(mcases, mimpl, mod)
+        rep.cov['decoder_model_cases'] = len(mcases)
+        rep.cov['decoder_model_agreement'] = len(mcases) if d is None else d
         if d is not None:
-            # the model says: in bounds, this result.  Tell an implementation overflow from a model gap
             ctx.broken.append(('correspondence:decoder', 'model and implementation disagree on %s case %r: impl=%r model=%r' % (
-                kinds[d], cases[d][:300], impl[d][-200:], mod[d][-200:])))
-            findings.diff_cases.append(('wire', cases[d]))
+                kinds[sel[d]], mcases[d][:300], mimpl[d][-200:], mod[d][-200:])))
+            findings.diff_cases.append(('wire', mcases[d]))
     return cases
 
 
